@@ -60,6 +60,7 @@ KINDS = [
     "GetDefaultCategory", "GetDefaultUnit/Value", "GetUnits", "GetBaseUnit", "GetCategoryInfo", "CheckCategoryUnit", "CheckQuantityTypeUnit", "GetQuantityType", "mul", "add", "sub-reversed", "div",
     "Array.IsValid", "Array.GetValues", "FixedArray", "FractionScalar", "ObtainQuantity", "ObtainQuantity(u)", "Quantity(c,u)", "derived-sum", "derived-product", "CreateCopy(unit)", "pickle",
     "GetUnitName", "FindUnitCase", "CheckValueForCategory", "quantity.GetValidUnits", "ChangeScalars", "compare",
+    "derived request (tuple pairs)", "derived request (list overload, tuple items)", "arithmetic on a composition", "derived request (one category at an exponent)",
     "Unknown-type conversions", "Unknown-type values", "ObtainQuantity(u,c,caption)", "ObtainQuantity(u,None,caption)", "GetUnits()/GetInfos()", "GetInfo", "FindSimilarUnitMatches", "IsValidCategory/CheckQuantityType", "quantity getters", "db.Sum/Multiply",
 ]  # fmt: skip
 
@@ -168,6 +169,25 @@ def run_query(db, q):
             o = mk(OrderedDict([(c, [v, 1]), (c2, [u, 1])]))
             s1, s2 = Scalar(d, x), Scalar(o, 2.0)
             r = [s1 + s2, s1 - s2, s2 - s1, d.GetUnitName(), d, o]
+        elif kind == "derived request (tuple pairs)":
+            # the pairs of a composing map may come as tuples as well as lists
+            qq = ObtainQuantity(OrderedDict([(c, (u, 1)), ("time", ("s", -1))]))
+            q2 = ObtainQuantity(OrderedDict([(c, (u, 2))]))
+            r = [qq, qq.GetUnit(), q2, q2.GetUnit()]
+        elif kind == "derived request (list overload, tuple items)":
+            qq = ObtainQuantity([(u, 1), ("s", -1)], (c, "time"))
+            q2 = ObtainQuantity([(u, 2)], [c])
+            r = [qq, qq.GetUnit(), q2, q2.GetUnit()]
+        elif kind == "derived request (one category at an exponent)":
+            qq = ObtainQuantity(OrderedDict([(c, [u, 2])]))
+            q2 = Quantity.CreateDerived(OrderedDict([(c, [u, 3]), (c2, [v, -1])]))
+            db.CheckCategoryUnit(c, u)
+            r = [qq, qq.GetQuantityType(), q2, q2.GetQuantityType()]
+        elif kind == "arithmetic on a composition":
+            # the same compositions a derived request may have named before: products / quotients / sums work on them
+            s = Scalar(c, x, u) / Scalar("time", 2.0, "s")
+            sq = Scalar(c, x, u) * Scalar(c, 2.0, u)
+            r = [s * Scalar(c, 3.0, u), s / Scalar(c, 3.0, v), s + s, sq * Scalar(c, 1.0, v), sq / Scalar(c, 2.0, u), sq - sq]
         elif kind == "derived-product":
             s = Scalar(c, x, u) * Scalar(c2, 3.0, v) / Scalar(c, 2.0, v)
             r = [s, s.GetQuantity().GetUnitName(), s * s]
@@ -263,7 +283,7 @@ def full_snapshot(db):
     return (snapshot.registry(db), snapshot.registry_getters_safe(db))
 
 
-def history(ctx, r, n_steps, base="empty", fresh_cache=None):
+def history(ctx, r, n_steps, base="empty", fresh_cache=None, script=None):
     """One history on a warm database; every query also asked on a fresh replay of the registrations."""
     from barril.units import UnitDatabase
 
@@ -274,11 +294,12 @@ def history(ctx, r, n_steps, base="empty", fresh_cache=None):
     asked = []
     # start with a few registrations so that early queries have something to succeed on
     head = r.choice([0, 3, 6, 9, 12, 15])
-    for step in range(n_steps):
-        do_reg = (step < head) or r.random() < 0.22
-        if do_reg and (pending or r.random() < 0.5):
+    for step in range(n_steps if script is None else len(script)):
+        scripted = script[step] if script is not None else None
+        do_reg = ((step < head) or r.random() < 0.22) if scripted is None else scripted[0] == "reg"
+        if do_reg and (scripted is not None or pending or r.random() < 0.5):
             bad = (not pending) or r.random() < 0.2
-            call = r.choice(BAD_REG) if bad else pending.pop(r.randrange(min(2, len(pending))))
+            call = scripted[1] if scripted is not None else (r.choice(BAD_REG) if bad else pending.pop(r.randrange(min(2, len(pending)))))
             hist.append(["reg", call[0], list(call[1]), call[2]])
             with table.pushed(warm):
                 before = full_snapshot(warm) if base == "empty" else None
@@ -293,7 +314,7 @@ def history(ctx, r, n_steps, base="empty", fresh_cache=None):
             continue
         # a third of the queries repeat one asked earlier in this history (before later registrations and
         # other queries): the answer must still be the one a fresh database gives
-        q = r.choice(asked) if asked and r.random() < 0.35 else gen_query(r)
+        q = scripted[1] if scripted is not None else (r.choice(asked) if asked and r.random() < 0.35 else gen_query(r))
         asked.append(q)
         hist.append(["query"] + list(q))
         with table.pushed(warm):
@@ -336,6 +357,28 @@ def history(ctx, r, n_steps, base="empty", fresh_cache=None):
 KIND_OK, KIND_ODD = {}, {}
 
 
+def override_scripts():
+    """Scripted histories around one event: a category is used (every query kind, with units of its type), then registered
+    again *for another quantity type* (override), then every query is asked again - what was accepted or memoised for the
+    old definition must not answer for the new one. Also the reverse order of first use (tuple-pair requests first)."""
+    setup = [("reg", c) for c in REG[:10]] + [("reg", REG[12]), ("reg", REG[13])]
+    scripts = []
+    for cat, old_u, new_type, new_u in (("depth", "m", "time", "s"), ("length", "cm", "volume", "m3"), ("time", "s", "length", "m")):
+        if cat == "length":
+            setup2 = setup
+        else:
+            setup2 = setup
+        qs = [(k, cat, 5.0, old_u, old_u, cat) for k in KINDS] + [(k, cat, 5.0, new_u, new_u, cat) for k in ("CheckCategoryUnit", "Scalar(c,x,u)", "ObtainQuantity", "derived request (one category at an exponent)", "derived request (tuple pairs)")]
+        over = ("reg", ("AddCategory", (cat, new_type), {"override": True}))
+        scripts.append(setup2 + [("query", q) for q in qs] + [over] + [("query", q) for q in qs])
+        scripts.append(setup2 + [("query", q) for q in reversed(qs)] + [over] + [("query", q) for q in qs])
+    # tuple-pair requests first, arithmetic afterwards (and the other way round)
+    for first, second in (("derived request (tuple pairs)", "arithmetic on a composition"), ("derived request (list overload, tuple items)", "arithmetic on a composition"), ("arithmetic on a composition", "derived request (tuple pairs)")):
+        for cat, u in (("length", "m"), ("length", "cm"), ("depth", "m")):
+            scripts.append(setup + [("query", (first, cat, 5.0, u, "cm" if u == "m" else "m", cat)), ("query", (second, cat, 5.0, u, "cm" if u == "m" else "m", cat)), ("query", (first, cat, 5.0, u, u, cat))])
+    return scripts
+
+
 def run(ctx):
     from barril.units import AbstractValueWithQuantityObject, Quantity, UnitDatabase
 
@@ -358,6 +401,10 @@ def run(ctx):
         hist = history(ctx, r, 40 if quick else 60)
         if h == 0 and ctx.shard == 0:
             ctx.sample({"history (first 12 steps)": hist[:12]})
+    for k, sc in enumerate(override_scripts()):
+        if k % ctx.nshards == ctx.shard:
+            history(ctx, r, 0, script=sc)
+            ctx.count("scripted histories (use, override for another type, use again; tuple-pair requests before arithmetic)")
     if not quick:
         rp = ctx.rng("posc")
         for h in range(25):
